@@ -281,6 +281,10 @@ _EXTRA = {
     'R14': (['C10'], 'R14 (E4): nodes(), format, interpret and the other read-only calls on a tree do not write to it (a cache written by a query goes stale when the tree is rearranged, and relabelling then numbers the old order).'),
     'R14r': (['C17', 'C13', 'C20'], 'R14r (E4): the tree returned by canonicalize_roles / configure / reconfigure / parse contains no list object of an argument (the points-to closure of the result is disjoint from the parameters\' lists), so the in-place operations on the result cannot reach the original.'),
     'R88': (['C01', 'C02', 'C03', 'C09', 'C11', 'C12', 'C15', 'C16', 'C20'], 'R88: a constructor stores what it is given (reaching definitions: the parameter itself reaches self.x) and every Graph / Tree built from a graph or tree argument is given that argument\'s metadata.'),
+    'R89': (['C01', 'C02', 'C03', 'C05', 'C09', 'C10', 'C19', 'C20'], 'R89: the parameters and default values of the public callables are the documented ones (spec/signatures.json, transcribed from the pinned tree and the API docs).'),
+    'R90': (['C02', 'C03', 'C04', 'C05', 'C20'], 'R90: a branch target (atom or nested node by E3 type) is indexed only under the is_atomic test that excludes the atom.'),
+    'R91': (['C16', 'C20'], 'R91: decision table of Model.errors - under each of the four cases (no triples / no top / top not a source / usable top) every path passes the message (or the reachability search) that applies and none that does not (deterministic CFG walk under the case\'s truth assignment).'),
+    'R92': (['C12', 'C20'], 'R92: indicate_branches appends, before each triple that carries a Push, one TOP triple oriented from the enclosing node to the pushed variable, and re-appends every triple.'),
     'R87': (['C20', 'C17'], 'R87: the option tables main() builds once are only read by process/_process_in/_process_out (alias-following over what is unpacked from them).'),
     'R86': (['C01', 'C07', 'C09', 'C20'], 'R86: an argument annotated as Iterable / Iterator / file is walked at most once on every path (a second walk of a file or generator finds nothing).'),
 }
